@@ -26,7 +26,7 @@ def nz(rng, lo, hi, digits=3):
 ELEMENTARY_FAMILIES = {
     'p': ['general', 'axis+', 'axis-', '3pt-Dpos', '3pt-Dneg', '3pt-D0-C',
           '3pt-D0-B', '3pt-D0-A', '3pt-generic', '3pt-axis-neg',
-          '3pt-axis-pos', '3pt-close'],
+          '3pt-axis-pos', '3pt-close', '3pt-D0-large'],
     'px': ['any'], 'py': ['any'], 'pz': ['any'],
     'so': ['any'], 's': ['any'], 'sx': ['any'], 'sy': ['any'], 'sz': ['any'],
     'c/x': ['any'], 'c/y': ['any'], 'c/z': ['any'],
@@ -147,6 +147,20 @@ def elementary(rng, kind, family):
             if rng.random() < 0.5:
                 pts[0], pts[2] = pts[2], pts[0]
             return [v for pnt in pts for v in pnt]
+        if family == '3pt-D0-large':
+            # a plane through the origin given by points metres away, with
+            # coordinates that are not exactly representable: D = 0 up to a
+            # rounding error that grows with the coordinates
+            nrm = [nz(rng, 0.2, 1), nz(rng, 0.2, 1),
+                   rng.choice([0.0, nz(rng, 0.2, 1)])]
+            pts = _exact_plane_points(rng, nrm)
+            scale = rng.choice([37.3, 173.2051, 84.5237, 512.7, 1000.1])
+            # one point stays the origin itself in half of the cases
+            out = [v * scale for v in pts]
+            if rng.random() < 0.5:
+                k = rng.randrange(3)
+                out[3 * k:3 * k + 3] = [0.0, 0.0, 0.0]
+            return out
         if family == '3pt-D0-C':
             nrm = [nz(rng, 0.2, 1), nz(rng, 0.2, 1), nz(rng, 0.2, 1)]
             return _exact_plane_points(rng, nrm)
@@ -480,7 +494,7 @@ def _arb(rng, family, base):
 # --------------------------------------------------------------------------
 ROT_CLASSES = ['identity', 'translation', 'generic', 'permutation',
                'flip-x', 'flip-y', 'flip-z', 'quarter', 'near-axis',
-               'small-angle']
+               'small-angle', 'near-flip']
 
 
 def rotation_of_class(rng, cls):
@@ -506,6 +520,20 @@ def rotation_of_class(rng, cls):
         mat[i, j] = sgn
         mat[j, i] = -sgn
         return mat
+    if cls == 'near-flip':
+        # a half turn about a coordinate axis, off by 1e-8 to 1e-5 rad: an
+        # axis that lands almost, but not exactly, on the opposite direction
+        flip = rotation_of_class(rng, rng.choice(['flip-x', 'flip-y',
+                                                  'flip-z']))
+        ang = math.exp(rng.uniform(math.log(1e-8), math.log(1e-5))) * \
+            rng.choice([-1, 1])
+        cth, sth = math.cos(ang), math.sin(ang)
+        i, j = rng.choice([(0, 1), (1, 2), (2, 0)])
+        mat = np.eye(3)
+        mat[i, i] = mat[j, j] = cth
+        mat[i, j] = sth
+        mat[j, i] = -sth
+        return mat @ flip
     if cls == 'small-angle':
         # a tilt of 0.03 to 0.5 degrees about a coordinate axis: an object
         # that is almost, but not, aligned
@@ -600,6 +628,24 @@ def tr_spec(rng, motion, form):
         return M.TrSpec(origin=org, entries=flat, motion=motion)
     if form == 'inline13':
         return M.TrSpec(origin=org, entries=flat + [1], motion=motion)
+    if form.startswith('inline-'):
+        # abbreviated matrices with J placeholders; the completion is unique
+        ent = list(flat)
+        if form == 'inline-6j-rows':
+            miss = rng.randrange(3)
+            for k in range(3):
+                ent[3 * miss + k] = None
+        elif form == 'inline-6j-cols':
+            miss = rng.randrange(3)
+            for k in range(3):
+                ent[3 * k + miss] = None
+        elif form == 'inline-5j':
+            row, col = rng.randrange(3), rng.randrange(3)
+            ent = [v if (k // 3 == row or k % 3 == col) else None
+                   for k, v in enumerate(flat)]
+        spec = M.TrSpec(origin=org, entries=ent, motion=motion)
+        spec.jump_runs = rng.random() < 0.5      # write 3j instead of j j j
+        return spec
     if form == 'star':
         degs = [math.degrees(math.acos(max(-1.0, min(1.0, v)))) for v in flat]
         true_b = np.array([math.cos(math.radians(d)) for d in degs]).reshape(3, 3)
